@@ -1,7 +1,8 @@
-"""C16 registry entry (tree builder part; the block-signer part is added to the same driver later)."""
+"""C16 registry entry: tree builder part (c16_tree) and block-signer part (c16_blocksigner)."""
 PID = 'C16'
 SPEC = dict(
-    driver='c16_tree',
+    drivers=[dict(driver='c16_tree', deadline=dict(quick=600, thorough=2400)),
+             dict(driver='c16_blocksigner', extra=['ref/ref.c', 'ref/ref_sig.c', 'ref/ref_pdu.c', 'simnet.c'], deadline=dict(quick=300, thorough=900))],
     rule='Bounded-exhaustive enumeration of leaf sequences. A case is one leaf sequence (per leaf: level, hash or metadata) '
          'added to one KSI_TreeBuilder under one maximum-level setting (and hash algorithm), then closed. For every leaf the '
          'accept/refuse decision is compared with the reference forest (root level after adding <= maximum level / 255); after '
@@ -26,10 +27,10 @@ SPEC = dict(
                'the binary-counter shape (covered for every count up to 64) and on level arithmetic around the boundaries 0/255/maximum level '
                '(covered by all mixtures of boundary levels, including every carry depth at which the overflow can occur).',
     level_note='Trusted: OpenSSL digest primitives, the reference arithmetic in harness/ref/ref.c and the forest model in c16_tree.c, gcc sanitizers. '
-               'Sequences longer than the bounds / other level values are not covered. Cases whose refusal happens in the middle of a carry run '
-               'in a forked process of their own so that a sanitizer abort is reported as a violation of that case. Block signer: not in this part.',
+               'Block signer part (c16_blocksigner): all leaf counts 1..6 (thorough 1..9) x blinding masks on/off x metadata on none / every / every second leaf x leaf level 0..1 (2), every leaf signature verified by the library (internal policy, leaf hash) AND re-parsed and re-evaluated by the reference, signed through the reference aggregator behind the simulated transport; reset == new: the same block signed by a reset signer (after a first block of 0..3 leaves) must be byte-identical to the block signed by a new signer. Sequences longer than the bounds / other level values are not covered. Cases whose refusal happens in the middle of a carry run '
+               'in a forked process of their own so that a sanitizer abort is reported as a violation of that case.',
     require_outcomes=['leaf:accepted', 'leaf:refused-maxlevel', 'leaf:refused-overflow-*', 'leaf:refused-badlevel', 'proof:ok',
-                      'proof:ok-metadata-leaf', 'root:canonical', 'root:canonical-after-refusal', 'midcarry:*', 'mem:baseline'],
+                      'proof:ok-metadata-leaf', 'root:canonical', 'root:canonical-after-refusal', 'midcarry:*', 'mem:baseline', 'leaf:verified', 'reset:identical'],
     assumptions=['OpenSSL EVP digest primitives are correct (shared by the library and the reference)',
                  'the canonical shape is the binary-counter forest (perfect by leaf count; merged from the right at close) as stated by the property anchors and tree_builder.h',
                  'the metadata payload re-derived by the reference (padding to even length, client id, optional machine id / sequence nr / request time) is the TLV payload the statement means'],
